@@ -312,6 +312,16 @@ def run(ctx, load):
             ctx.floors.pop(k)
     ctx.floor('C15.sink-keeps-all', 2)
     check_data_never_format(P, ctx)
+    # look reads into Strings wherever they live — inside containers too: the allocation-class tests of String refuse only stack / static
+    # objects (shared with C18)
+    from . import rules_c18
+    Pa = load(None, 'default')
+    ctx.config = 'default'
+    ctx.borrow('C15.look-into-contained-strings', 5, lambda: rules_c18.check_alloc_refusals(Pa, ctx), only=lambda o: o['key'].startswith('String'))
+    # show and look keep nothing between calls: a counter or memo in a static is left wrong by a call that ends in an exception and is
+    # shared between threads (shared with C13.no-shared-state)
+    from . import rules_c13
+    ctx.borrow('C15.show-keeps-no-state', 1, lambda: rules_c13.check_shared_state(Pa, ctx))
 
 
 EXPLANATION = (
